@@ -24,7 +24,12 @@ func SuggestionList(input string, options []string) []string {
 	}
 
 	sort.Slice(results, func(i, j int) bool {
-		return optionsByDistance[results[i]] < optionsByDistance[results[j]]
+		if di, dj := optionsByDistance[results[i]], optionsByDistance[results[j]]; di != dj {
+			return di < dj
+		}
+		// equally close options in name order, not in the order they were handed in
+		// (callers collect them from maps)
+		return results[i] < results[j]
 	})
 	return results
 }
